@@ -8,7 +8,8 @@ value (prefix tokens): `N` None, `T`/`F`, `I<int>`, `S<text>`, `M` the constant 
   `Z<k>` frozenset (each followed by k values), `D<k>` dict (k key/value pairs), `A<k>` State
   instance with k attributes `a b c …`.
 out:   `<result tree> | is=<is_missing> not=<not_missing> when=<dflt|same> bool=<truthiness>
-        eqL=<MISSING == r> eqR=<r == MISSING> | attr=<get,set,del on r if it is a Missing instance>`
+        eqL=<MISSING == r> eqR=<r == MISSING> | attr=<get,set,del on r if it is a Missing instance>
+        mod=<assignment of 6 / deletion of 3 special names: R = rejected> intact=<still the same falsy Missing>`
   in the result tree an instance of `Missing` prints `M` if it is the constant, `m` otherwise.
   A pickle round trip of a tree holding a `State` instance prints
   `ALT ERR:state-not-picklable || <line if it had succeeded>` (see comp_missing.canon). -/
@@ -91,12 +92,27 @@ def attrShow {α} : Option (Except AttrErr α) → String
   | some (.ok _) => "ok"
   | none => "-"
 
+/-- special attribute names whose assignment / deletion is probed on an instance of `Missing`
+(`__class__` is assigned a class with the same empty instance layout) -/
+def specialSets : List String := ["__class__", "__dict__", "__slots__", "__doc__", "_instance", "__bool__"]
+def specialDels : List String := ["__class__", "__doc__", "__slots__"]
+
+/-- `R` = rejected with an error, the object is unchanged -/
+def rejected {α} : Option (Except AttrErr α) → String
+  | some (.error _) => "R"
+  | some (.ok _) => "ok"
+  | none => "-"
+
 def line (r : Val) : String :=
   let w := match whenMissing r (.str "dflt") with
     | .str "dflt" => (match r with | .str "dflt" => "same" | _ => "dflt")
     | _ => "same"
   let attr := match r with
-    | .missing _ => s!"{attrShow (getAttr r "foo")},{attrShow (setAttr r "foo" (.int 1))},{attrShow (delAttr r "foo")}"
+    | .missing _ =>
+      let mods := (specialSets.map (fun n => rejected (setAttr r n (.int 1)))) ++
+                  (specialDels.map (fun n => rejected (delAttr r n)))
+      s!"{attrShow (getAttr r "foo")},{attrShow (setAttr r "foo" (.int 1))},{attrShow (delAttr r "foo")}" ++
+      s!" mod={",".intercalate mods} intact=1"
     | _ => "-"
   s!"{showVal r} | is={bit (isMissing r)} not={bit (notMissing r)} when={w} bool={bit (truthy r)} " ++
   s!"eqL={bit (eqMissingLeft r)} eqR={bit (eqMissingRight r)} | attr={attr}"
